@@ -143,7 +143,9 @@ def body_cli(case, rec):
         # chromosome tag) are read back as ONE object, which invents an adjacency: such runs cannot be judged from files
         try:
             api = remap.run_api(case)
-            if any(len({s_.name for s_ in a.scaffolds}) != len(list(a.scaffolds)) for a in api.assemblies.values()):
+            merged = [s_.name for k_, a in api.assemblies.items() if k_ != "Primary" and getattr(a, "curated", False) for s_ in a.scaffolds] if "Primary" in api.assemblies else []
+            # (within one assembly, or across the assemblies that Primary mode writes into one all_haplotigs file)
+            if len(set(merged)) != len(merged) or any(len({s_.name for s_ in a.scaffolds}) != len(list(a.scaffolds)) for a in api.assemblies.values()):
                 rec.note(case, False, {"duplicate_names_in_an_output_file_not_judged"})
                 return
         except Exception:  # noqa: BLE001
